@@ -14,7 +14,7 @@ import (
 
 var rules = []*Rule{
 	{ID: "R1", Title: "MUST-FSYNC: durable before acknowledged", Props: []string{"C06", "C05", "C08", "C11", "C17"}, Run: ruleR1},
-	{ID: "R2", Title: "FS-ORDER: multi-step file protocols keep a recoverable order", Props: []string{"C05", "C11", "C02", "C01", "C17", "C12"}, Run: func(p *Prog) []Ob { return append(append(append(append(ruleR2(p), p.overrideTargetObligations()...), p.removeRemovesLog()), p.atomicReplace()...), p.recoverReplaces()...)
+	{ID: "R2", Title: "FS-ORDER: multi-step file protocols keep a recoverable order", Props: []string{"C05", "C11", "C02", "C01", "C17", "C12"}, Run: func(p *Prog) []Ob { return append(append(append(append(ruleR2(p), p.overrideTargetObligations()...), p.removeRemovesLog()), p.atomicReplace()...), append(append(p.recoverReplaces(), p.recoverBeforeMigrate()...), p.whoMayRemoveSegment()...)...)
 	}},
 	{ID: "R3", Title: "LOCKSET: every shared mutable field has a common guard", Props: []string{"C08", "C09", "C03"}, Run: func(p *Prog) []Ob { return append(ruleR3(p), ruleR3c(p)...) }},
 	{ID: "R6", Title: "SENTINEL-IDENTITY: compared sentinels arrive unwrapped and alive", Props: []string{"C03", "C04", "C09", "C10", "C12"}, Run: ruleR6},
@@ -47,7 +47,7 @@ var rules = []*Rule{
 	{ID: "R28", Title: "GET-EXACT and CONSUME-BOUND", Props: []string{"C04", "C03"}, Run: func(p *Prog) []Ob { return append(ruleR28(p), p.consumeBound()...) }},
 	{ID: "R29", Title: "ITEM-DERIVATION", Props: []string{"C10", "C11"}, Run: ruleR29},
 	{ID: "R30", Title: "CLOCK-INDEPENDENCE", Props: []string{"C03", "C04", "C09", "C10", "C13", "C02"}, Run: ruleR30},
-	{ID: "R32", Title: "LAZY-LOG", Props: []string{"C14"}, Run: ruleR32},
+	{ID: "R32", Title: "LAZY-LOG", Props: []string{"C14"}, Run: func(p *Prog) []Ob { return append(ruleR32(p), p.openIsLazy()...) }},
 	{ID: "R33", Title: "TIME-VERBATIM", Props: []string{"C01", "C10"}, Run: ruleR33},
 	{ID: "R34", Title: "SEGMENT-IDENTITY", Props: []string{"C01", "C12"}, Run: ruleR34},
 	{ID: "R35", Title: "LOOKUP-OUTCOMES", Props: []string{"C04", "C09", "C10"}, Run: ruleR35},
